@@ -348,7 +348,7 @@ int main(int argc, char** argv)
   ctx.assume("rand()/srand()/time() are defined by the harness; a rand() answer is enumerated per class of index=(int)(rand()/RAND_MAX*(n-i)) plus the rand()==RAND_MAX edge");
   ctx.assume("bounds on the rand() answers: n<=3: every class at every call. n>=4: (i) one permutation draw at a time enumerates all (n+1)! answer sequences (incl. the RAND_MAX edge at "
              "every call) while the other draws return a fixed order (identity; thorough also 'always the last remaining'); (ii) n=4: all n! permutations of all iterations combined "
-             "(thorough, key starts: plus at most one RAND_MAX edge anywhere); (iii) thorough n=5 (n=6: start_subset 0, key starts): every pair of iterations, all permutations combined. "
+             "(key starts; thorough: start_subset 0); (iii) thorough n=5 (start_subset 0 and n-1): every pair of iterations, all permutations combined; n=6 (start_subset 0, starts 1 and n+1): adjacent pairs of iterations. "
              "key starts = start_subiteration in {1,2,n,n+1,2n+1}");
   ctx.assume("randomised runs: start_subset in {0,n-1} (quick) or all (thorough); start_subset is not read by the randomised code path");
   const bool th = ctx.thorough();
@@ -388,11 +388,13 @@ int main(int argc, char** argv)
                 for (int f = 0; f < 4; ++f)                             // one draw at a time: all (n+1)! answer sequences
                   for (int bg = 0; bg < (th ? 2 : 1); ++bg)
                     if (th || n == 4 || key_start) add(1 << f, bg, 0, inf);
-                if (n == 4 && ((!th && key_start) || (th && !key_start))) add(15, 0, 1, 0);   // all permutations of all iterations combined
-                if (n == 4 && th && key_start) add(15, 0, 1, 1);       //   ... plus at most one RAND_MAX edge anywhere
-                if (n >= 5 && th && (n == 5 || (key_start && ss == 0)))
+                // (sizes: n=4 combined = 24^4 = 3.3e5 executions per start; n=5 one pair = 1.4e4; n=6 one pair = 5.2e5; ~1 ms each)
+                if (n == 4 && key_start && (!th || ss == 0)) add(15, 0, 1, 0);   // all permutations of all iterations combined
+                if (n == 5 && th && (ss == 0 || ss == n - 1))
                   for (int f1 = 0; f1 < 4; ++f1)
                     for (int f2 = f1 + 1; f2 < 4; ++f2) add((1 << f1) | (1 << f2), 0, 1, 0); // every pair of iterations: all permutations combined
+                if (n == 6 && th && ss == 0 && (k0 == 1 || k0 == n + 1))
+                  for (int f1 = 0; f1 < 2; ++f1) add((1 << f1) | (1 << (f1 + 1)), 0, 1, 0);    // adjacent pairs of iterations: all permutations combined
               }
             for (auto& p : pols)
               {
